@@ -1,53 +1,64 @@
-(* C10: the contexts of a chain, reversed "current first, then previous", compute exactly forward ; f ; inverses in
-   reverse order, each inverse with the parameter of its own layer's forward pass. *)
+(* C10: the contexts of a chain, reversed "current first, then previous", compute exactly forward ; f ; backward parts in
+   reverse order, each with the parameter of its own layer's forward pass - for layers with any number of backward
+   fields, inverses with several backward arguments, and any inherit sets. *)
 From Connectome Require Import Values Loopback.
 Local Open Scope list_scope.
 
-Definition back (x : val) (ks : list lkind) (y : option val) : option val :=
-  match y with Some v => backward x ks v | None => None end.
-
-Lemma reverse_layer x k y : reverse (snd (connect_layer x k)) y =
-  match y with
-  | None => None
-  | Some v => match k with
-              | KInv i => Some (VApp (sym "I" i) [v; VApp (sym "P" i) [x] []] [])
-              | KInvNoParam i => Some (VApp (sym "I" i) [v] [])
-              | KInhAll | KInhList | KCache => Some v
-              | KFwdOnly _ => None end
-  end.
-Proof. destruct k, y; reflexivity. Qed.
-
-Lemma connect_chain_spec : forall ks x c,
-  fst (connect_chain x c ks) = forward x ks /\ forall y, reverse (snd (connect_chain x c ks)) y = reverse c (back x ks y).
+Lemma connect_chain_spec : forall ls x c,
+  fst (connect_chain x c ls) = forward x ls /\ forall e, reverse (snd (connect_chain x c ls)) e = reverse c (backward x ls e).
 Proof.
-  induction ks as [|k rest IH]; intros x c; cbn [connect_chain forward].
-  - split; [reflexivity|]. intros [v|]; reflexivity.
-  - destruct (connect_layer x k) as [x' ck] eqn:E. cbn [fst].
-    destruct (IH x' (CChain c ck)) as [H1 H2]. split; [exact H1|].
-    intros y. rewrite H2. cbn [reverse].
-    assert (Ek : ck = snd (connect_layer x k)) by (rewrite E; reflexivity).
-    assert (Ex : x' = fst (connect_layer x k)) by (rewrite E; reflexivity).
-    rewrite Ek, reverse_layer. f_equal. unfold back. destruct y as [v|]; [|reflexivity].
-    cbn [backward]. rewrite <- Ex. destruct (backward x' rest v); [|reflexivity]. destruct k; reflexivity.
+  induction ls as [|l rest IH]; intros x c; cbn [connect_chain forward backward]; [split; reflexivity|].
+  destruct (IH (fwd_layer l x) (CChain c (ctx_layer l x))) as [H1 H2]. split; [exact H1|].
+  intros e. rewrite H2. reflexivity.
 Qed.
 
-Theorem loopback_correct x0 ks : loopback x0 ks = loopback_spec x0 ks.
+Theorem loopback_correct x0 ls outs final : loopback x0 ls outs final = loopback_spec x0 ls outs final.
 Proof.
-  unfold loopback, loopback_spec, chain. destruct ks as [|k rest]; [reflexivity|].
-  destruct (connect_layer x0 k) as [x c] eqn:E.
-  destruct (connect_chain_spec rest x c) as [H1 H2].
-  destruct (connect_chain x c rest) as [x' c'] eqn:E2. cbn [fst snd] in H1, H2.
-  rewrite H2. subst x'. cbn [forward backward]. rewrite E. cbn [fst]. unfold back.
-  assert (Ec : c = snd (connect_layer x0 k)) by (rewrite E; reflexivity).
-  rewrite Ec, reverse_layer.
-  destruct (backward x rest (VApp "f" [forward x rest] [])); [|reflexivity]. destruct k; reflexivity.
+  unfold loopback, loopback_spec, chain. destruct ls as [|l rest]; [reflexivity|].
+  destruct (connect_chain_spec rest (fwd_layer l (Some x0)) (ctx_layer l (Some x0))) as [H1 H2].
+  destruct (connect_chain (fwd_layer l (Some x0)) (ctx_layer l (Some x0)) rest) as [x c]. cbn [fst snd] in H1, H2.
+  cbn [forward backward]. rewrite <- H1. destruct x as [x|]; [|reflexivity]. rewrite H2. reflexivity.
 Qed.
 
-(* a forward-only layer anywhere in the chain rejects the output: nothing is ever returned un-inverted *)
-Theorem fwd_only_rejects x0 ks1 i ks2 : loopback x0 (ks1 ++ KFwdOnly i :: ks2) = None.
+(* ---------- consequences for the six simple layer kinds (one backward field y) ---------- *)
+Lemma elookup_app a b n : elookup (a ++ b) n = match elookup a n with Some v => Some v | None => elookup b n end.
+Proof. induction a as [|[k v] a IH]; cbn; [reflexivity|]. destruct (String.eqb n k); [reflexivity|exact IH]. Qed.
+Lemma elookup_filter_none p e n : elookup e n = None -> elookup (filter p e) n = None.
 Proof.
-  rewrite loopback_correct. unfold loopback_spec. generalize (VApp "f" [forward x0 (ks1 ++ KFwdOnly i :: ks2)] []). revert x0.
-  induction ks1 as [|k rest IH]; intros x0 y; cbn [app backward].
-  - destruct (backward _ ks2 y); reflexivity.
-  - rewrite IH. reflexivity.
+  induction e as [|[k v] e IH]; cbn; [reflexivity|]. destruct (String.eqb n k) eqn:E; [discriminate|].
+  intros H. destruct (p (k, v)); cbn; [rewrite E|]; apply IH, H.
+Qed.
+
+(* a layer of these kinds never creates y out of nothing *)
+Lemma no_y_stays k x e : elookup e "y" = None -> elookup (reverse (ctx_layer (layer_of k) x) e) "y" = None.
+Proof.
+  intros H. destruct k; cbn [layer_of ctx_layer bl_cache bl_defs bl_inh reverse]; try exact H;
+    unfold bstep; cbn [flat_map map bd_args bd_out all_some]; rewrite ?H; cbn [app]; apply elookup_filter_none, H.
+Qed.
+Lemma backward_no_y ks : forall x e, elookup e "y" = None -> elookup (backward x (map layer_of ks) e) "y" = None.
+Proof.
+  induction ks as [|k ks IH]; intros x e H; cbn [map backward]; [exact H|]. apply no_y_stays, IH, H.
+Qed.
+
+Lemma bstep_nothing p e : bstep [] (InhList []) p e = [].
+Proof. unfold bstep. cbn [flat_map app]. induction e as [|[n v] e IH]; cbn; [reflexivity|exact IH]. Qed.
+
+(* an output without an inverse path through some layer is rejected, wherever that layer sits *)
+Theorem fwd_only_rejects x0 ks1 i ks2 :
+  loopback x0 (map layer_of (ks1 ++ KFwdOnly i :: ks2)) ["y"] ["y"] = None.
+Proof.
+  rewrite loopback_correct. unfold loopback_spec. destruct (forward _ _) as [x|]; [|reflexivity].
+  cbn [map all_some].
+  assert (H : elookup (backward (Some x0) (map layer_of (ks1 ++ KFwdOnly i :: ks2)) (f_outputs ["y"] x)) "y" = None); [|rewrite H; reflexivity].
+  generalize (f_outputs ["y"] x). generalize (Some x0). induction ks1 as [|k rest IH]; intros xo e; cbn [app map backward].
+  - unfold ctx_layer. cbn [layer_of bl_cache bl_defs bl_inh reverse]. rewrite bstep_nothing. reflexivity.
+  - apply no_y_stays. apply IH.
+Qed.
+
+(* an invertible layer applies its own inverse to what comes back, with its own parameter *)
+Lemma inv_layer_step i x v e : elookup e "y" = Some v ->
+  elookup (reverse (ctx_layer (layer_of (KInv i)) (Some x)) e) "y" = Some (VApp (sym "I" i) [v; VApp (sym "P" i) [x] []] []).
+Proof.
+  intros H. cbn [layer_of ctx_layer bl_cache bl_defs bl_inh reverse]. unfold bstep. cbn [flat_map map bd_args bd_out bd_fn bd_param all_some].
+  rewrite H. cbn. reflexivity.
 Qed.
